@@ -132,7 +132,7 @@ def _confirm_any(node: NodeV, w: Optional[str]) -> bool:
     return True
 
 
-@rule("G7", "LITERAL-LANG: every text handed to int()/float() is in the language the converter accepts", ["C15", "C01"], floor=4)
+@rule("G7", "LITERAL-LANG: every text handed to int()/float() is in the language the converter accepts", ["C15", "C01", "C08"], floor=4, default_props=["C15", "C01"])
 def g7(ctx: Ctx):
     I = interp(ctx)
     vals = rule_values(ctx)
@@ -173,10 +173,23 @@ def g7(ctx: Ctx):
                     ok = True
                 elif wit is None:
                     wit = cands[0] if cands else w
+            layout_only = False
+            if not ok:
+                # would the blank-free spellings of the terminal all convert?  then the failure is an effect of layout
+                from . import textlang as _tl
+
+                _tl.NO_BLANK_SPELLINGS = True
+                try:
+                    layout_only = string_lang(I, args[0]).included_in(targets[which])[0]
+                except Exception:
+                    layout_only = False
+                finally:
+                    _tl.NO_BLANK_SPELLINGS = False
             ctx.ob(
                 key,
                 ok,
-                "" if ok else f"terminal `{owner}` admits spellings whose normalised text {wit!r} is not accepted by {name}(): the conversion raises ValueError (an internal error, not a refusal)",
+                "" if ok else f"terminal `{owner}` admits spellings whose normalised text {wit!r} is not accepted by {name}(): the conversion raises ValueError (an internal error, not a refusal)" + (" - only spellings with a blank inside the literal fail, the same literal written without blanks converts" if layout_only else ""),
+                props=["C15", "C01", "C08"] if layout_only else None,
                 file="coco/b09/grammar.py",
                 line=I.peg.line(owner),
                 witness="" if ok else f"10 A={wit}",
@@ -672,7 +685,7 @@ def g17(ctx: Ctx):
     from .peg import GRAMMAR_REL, peg
 
     P = peg(ctx)
-    names = ["A", "Z", "AB", "A1", "ABC", "AB1", "X12"]
+    names = ["A", "Z", "AB", "A1", "ABC", "AB1", "X12", "A1B", "X9Y", "B2CD", "A1B2"]
     n = 0
     for tname, e in sorted(P.rules.items()):
         if P.kind(e) != "regex":
